@@ -116,7 +116,12 @@ impl BitFont {
     }
 
     pub fn is_default(&self) -> bool {
-        self.name == DEFAULT_FONT_NAME
+        if self.name != DEFAULT_FONT_NAME {
+            return false;
+        }
+        // the name alone does not make it the built-in font: formats that leave the default font out read the built-in glyphs back
+        let default = BitFont::default();
+        self.size == default.size && self.length == default.length && self.convert_to_u8_data() == default.convert_to_u8_data()
     }
 
     pub fn convert_to_u8_data(&self) -> Vec<u8> {
